@@ -29,13 +29,16 @@ type cpOp struct {
 }
 
 type cpCase struct {
-	Bound   int      `json:"bound"` // 0 none 1 size 2 weight
-	Max     int      `json:"max,omitempty"`
-	Weights []uint32 `json:"weights,omitempty"`
-	Expiry  int      `json:"expiry"`   // 0 none, 1 writing (TTL 1000ns), 2 accessing
-	Exec    int      `json:"executor"` // 0 caller-runs 1 goroutine 2 default
-	Keys    int      `json:"keys"`
-	Stats   bool     `json:"stats"`
+	// Reentrant: the OnDeletion handler itself calls the cache (invalidates a neighbouring key, and re-sets a key after an
+	// automatic removal, within a budget), as cascading listeners do.
+	Reentrant bool     `json:"reentrant_handler,omitempty"`
+	Bound     int      `json:"bound"` // 0 none 1 size 2 weight
+	Max       int      `json:"max,omitempty"`
+	Weights   []uint32 `json:"weights,omitempty"`
+	Expiry    int      `json:"expiry"`   // 0 none, 1 writing (TTL 1000ns), 2 accessing
+	Exec      int      `json:"executor"` // 0 caller-runs 1 goroutine 2 default
+	Keys      int      `json:"keys"`
+	Stats     bool     `json:"stats"`
 	// S3
 	Threads  [][]cpOp `json:"threads,omitempty"`
 	Schedule []int    `json:"schedule,omitempty"`
@@ -123,6 +126,7 @@ func genCPS3(t *rapid.T, needBound bool) cpCase {
 		}), 1, 7).Draw(t, "ops"))
 	}
 	c.Schedule = rapid.SliceOfN(rapid.IntRange(0, 7), 0, 600).Draw(t, "schedule")
+	c.Reentrant = rapid.IntRange(0, 2).Draw(t, "reentrant") == 0
 	return c
 }
 
@@ -144,6 +148,7 @@ func genCPS4(t *rapid.T, needBound bool) cpCase {
 	c.Seed = rapid.Int64().Draw(t, "seed")
 	c.Noise = pick(t, "noise", 0, 1, 2)
 	c.Procs = pick(t, "procs", 16, 16, 4, 3)
+	c.Reentrant = rapid.IntRange(0, 2).Draw(t, "reentrant4") == 0
 	return c
 }
 
@@ -307,10 +312,21 @@ func runCP(c cpCase, s3 bool) *cpResult {
 		res.Atomic = append(res.Atomic, cpEvent{e.Key, e.Value, e.Cause})
 		r.mu.Unlock()
 	}
+	var reentryBudget atomic.Int64
+	reentryBudget.Store(40)
 	opts.OnDeletion = func(e otter.DeletionEvent[int, int]) {
 		r.mu.Lock()
 		res.Async = append(res.Async, cpEvent{e.Key, e.Value, e.Cause})
 		r.mu.Unlock()
+		if c.Reentrant && reentryBudget.Add(-1) >= 0 {
+			// never an operation that takes the eviction lock unconditionally: with a caller-runs executor this handler
+			// runs inside maintenance
+			if e.Cause.IsEviction() && e.Value%2 == 0 {
+				r.do(cpOp{Kind: "set", Key: e.Key, W: e.Value & 7})
+			} else {
+				r.do(cpOp{Kind: "invalidate", Key: (e.Key + 1) % max(1, c.Keys)})
+			}
+		}
 	}
 	var execWG sync.WaitGroup
 	var sched *vh.Sched
@@ -399,9 +415,13 @@ func runCP(c cpCase, s3 bool) *cpResult {
 		}
 	}
 	// quiescence: every call returned; let pending maintenance run
-	for i := 0; i < 3; i++ {
+	for i := 0; i < 200; i++ {
 		r.cache.CleanUp()
 		execWG.Wait()
+		// a re-entrant handler may write again while this maintenance delivers its notifications: repeat until nothing is pending
+		if i >= 2 && r.cache.VerifWriteBufferSize() == 0 && r.cache.VerifDrainStatus() == 0 {
+			break
+		}
 	}
 	res.Lookups, res.Found = r.lookups.Load(), r.found.Load()
 	for k, v := range r.cache.All() {
@@ -629,6 +649,9 @@ func cpClasses(c cpCase, res *cpResult) []string {
 	if res.Expired > 0 {
 		cl = append(cl, "expired-unswept-at-end")
 	}
+	if c.Reentrant {
+		cl = append(cl, "reentrant-handler")
+	}
 	return cl
 }
 
@@ -658,7 +681,7 @@ func runCPProp(t *testing.T, oc cpOracle) {
 	}
 	propMain(t, propSpec[cpCase]{
 		Prop: oc.prop, Test: oc.test,
-		Rule:        substrate + "operations: Set, SetIfAbsent, Compute(write/invalidate/cancel), Invalidate, GetIfPresent, GetEntry, rarely InvalidateAll and SetMaximum, on unbounded / MaximumSize / MaximumWeight (weights 0, 1..4, > maximum) caches with and without (write- or access-based) expiry and caller-runs / goroutine / default executors; " + oc.rule,
+		Rule:        substrate + "operations: Set, SetIfAbsent, Compute(write/invalidate/cancel), Invalidate, GetIfPresent, GetEntry, rarely InvalidateAll and SetMaximum, in a third of the cases an OnDeletion handler that itself invalidates / re-sets keys (cascading listener), on unbounded / MaximumSize / MaximumWeight (weights 0, 1..4, > maximum) caches with and without (write- or access-based) expiry and caller-runs / goroutine / default executors; " + oc.rule,
 		Assumptions: []string{"quiescence = every call returned, every cache-started goroutine joined, then CleanUp", "schedules are explored at hook-point granularity (S3) or sampled by the Go runtime (S4)"},
 		Gen:         gen,
 		Run: func(c cpCase) outcome {
